@@ -725,6 +725,9 @@ func Run(ctx *common.Ctx) int {
 		}
 		tasks = append(tasks, more...)
 	}
+	for i := range tasks {
+		tasks[i].W = 4 // package initialisation (VSCHED_NUMCPU) sees the CPU count the executions use
+	}
 	ctx.Printf("C18: %d tasks; package-level variables %v; touches inserted %d\n", len(tasks), pre, info.Counts["touch"])
 	m := e1.RunTasks(ctx, info.Bin, tasks, 0, false)
 	var samples []interface{}
@@ -878,6 +881,30 @@ func raceStorm() int {
 					bad++
 					fmt.Fprintf(os.Stderr, "WARNING: DATA RACE (observed through results): %s called by 16 goroutines at once on different inputs returned %v for input %d, alone it returns %v\n", ops[o].Name, short(got[g]), which[g], short(solo[which[g]]))
 				}
+			}
+		}
+	}
+	// the same with samples of the standard's size (10^6 bits), where a chunked or parallel path may take over:
+	// eight goroutines, two different samples (without linear complexity and the rounds: a second per call)
+	big := BigInputs(1)[:2]
+	bigBits := [][]bool{bitsWindow(big[0]), bitsWindow(big[1])}
+	for o := range ops {
+		if o == 12 || o == 15 || o == 16 {
+			continue
+		}
+		solo := [][]float64{ops[o].F(big[0], bigBits[0]), ops[o].F(big[1], bigBits[1])}
+		var wg sync.WaitGroup
+		got := make([][]float64, 8)
+		for g := 0; g < 8; g++ {
+			g := g
+			wg.Add(1)
+			go func() { defer wg.Done(); got[g] = ops[o].F(big[g%2], bigBits[g%2]) }()
+		}
+		wg.Wait()
+		for g := range got {
+			if !same(got[g], solo[g%2]) && bad < 6 {
+				bad++
+				fmt.Fprintf(os.Stderr, "WARNING: DATA RACE (observed through results): %s called by 8 goroutines at once on 10^6-bit samples returned %v, alone it returns %v (%s)\n", ops[o].Name, short(got[g]), short(solo[g%2]), firstDiff(got[g], solo[g%2]))
 			}
 		}
 	}
